@@ -368,6 +368,7 @@ def step (st : DState) (line : String) : DState × String :=
     (st, s!"ok {cj (Spec.headersRef (st.h.level c) (lst sub))} {cj (Spec.entriesRef (st.h.level c) (lst sub))}")
   | ["R", "exiting_exits", c, sub] =>
     (st, s!"ok {cj (Spec.exitingRef (st.h.level c) (lst sub))} {cj (Spec.exitsRef (st.h.level c) (lst sub))}")
+  | ["SPEC", "census", exp, got] => (st, bit (Spec.sameMultiset (lst exp) (lst got)))
   | ["SPEC", "same_hier"] => (st, bit (sameHier st.g st.h))
   | ["SPEC", "tables_preserved"] => (st, bit (tablesPreserved st.g st.h))
   | ["SPEC", "iter", c, out] => (st, bit (Spec.iterSpecOK st.h c (lst out)))
